@@ -12,9 +12,11 @@ COMMON_TRUSTED = [
     "Channel0Handle::new, SealableOutputBuffer::{append, push_method, push_heartbeat, seal}) and tools/rs2sm.py (the content "
     "collector: ContentCollector::{collect_deliver, collect_return, collect_get, collect_header, collect_body} and "
     "State<T>::{collect_header, collect_body}; the handshake: HandshakeState::process; the caller's side of a call: "
-    "IoLoopHandle::{send, recv, check_recv_for_error, call_message, call_nowait, get, consume}); the meaning given to the Rust subsets is stated in those files and trusted; "
+    "IoLoopHandle::{send, recv, check_recv_for_error, call_message, call_nowait, get, consume}; the body splitter: "
+    "ChannelHandle::send_content; the confirm smoother: ConfirmSmoother::{process, new_iter}, Iter::{next, drop}); the meaning given to the Rust subsets is stated in those files and trusted; "
     "the translations are proved equal to the hand-written models (C15_source_is_model, C17_fire_source_is_model, "
-    "C02_limit_source_is_model, C08_seal_source_is_model, C03_source_is_model, C16_process_source_is_model, C04_call_source_is_model)",
+    "C02_limit_source_is_model, C08_seal_source_is_model, C03_source_is_model, C16_process_source_is_model, C04_call_source_is_model, C02_send_content_source_is_model, C14_next_source_is_model / "
+    "C14_drop_source_is_model / C14_process_source_is_model)",
     "no extraction is used: the model is evaluated by the kernel's VM",
 ]
 
@@ -619,6 +621,12 @@ PROPS["C02"]["drivers"].append({"name": "c01", "n_quick": 80, "n_thorough": 3000
 PROPS["C02"]["rule"] += (" Under fragmented writes (c01, see C01): publishes with bodies of 0 / limit / limit+1 / "
     "2 limit+5 / 1-900 bytes from 1-3 threads over a transport that takes 0 / 1-7 / 8-300 / up to 6000 bytes per "
     "write from the very first byte, Connection::close right behind them.")
+PROPS["C02"]["explanation"] += (" C02_send_content_source_is_model: the splitting loop of ChannelHandle::send_content as "
+    "translated from the source on every run (Gen/SrcSend.v) emits, for every body and limit, exactly the header and "
+    "the chunks of the model the bound theorems are about.")
+PROPS["C14"]["explanation"] += (" C14_process_source_is_model / C14_next_source_is_model / C14_drop_source_is_model: "
+    "src/confirm.rs as translated from the source text on every run (Gen/SrcConfirm.v) is Model/Confirm.v step by step, "
+    "so the history theorems hold of the translated code.")
 PROPS["C02"]["explanation"] += (" c01: every channel's publish, header and body frames are on the wire exactly as "
     "issued, once, in order, whole, also when the buffer is sealed by the close while half written.")
 PROPS["C02"]["trusted_base"] = PROPS["C02"]["trusted_base"] + L2_TRUSTED
